@@ -186,8 +186,7 @@ theorem C17_end_to_end {r p : State} (hr : Reach r) (hp : Reach p) (hb : p.bioEo
   have hz0 : z = [] := by
     have := congrArg List.length hz
     rw [hall] at this
-    simp at this
-    exact List.eq_nil_of_length_eq_zero this
+    simpa using this
   have hS' : S' = [] := by
     cases S' with
     | nil => rfl
@@ -380,7 +379,8 @@ theorem C17_truncation_detected {s s' : State} {o : Out} {c : Call} (h : Reach s
 ends it is enabled -/
 theorem C17_truncation_not_silent {s : State} {c : Call} (hpc : s.pc = .blocked c)
     (h1 : s.incoming = []) (h2 : s.inEnded = true) : ∃ s' o, step s .eofDeliver = some (s', o) := by
-  simp [step, hpc, h1, h2]
+  simp only [step, hpc, h1, h2, and_self, if_true]
+  exact ⟨_, _, rfl⟩
 
 /-! ### non-vacuity -/
 
